@@ -1152,3 +1152,33 @@ M("r7-quiet-ne-form", "C10", "quiet", "src/register_circuit.rs",
                         reuse_reg = Some(reg);
                     }
                 }""", "behaviour-preserving: last-use test written with !=")
+
+# ---------------------------------------------------------------- C11 B4
+M("b4-output-wires-not-mapped", "C11", "fire B4", "src/convert.rs",
+  """            if output_wire >= first_output_wire {
+                output_gates[output_wire - first_output_wire] = next_wire;
+            }
+
+            wires_map[output_wire] = next_wire;""",
+  """            if output_wire >= first_output_wire {
+                output_gates[output_wire - first_output_wire] = next_wire;
+            } else {
+                wires_map[output_wire] = next_wire;
+            }""", "seed C11-b: output wires are not entered into the translation table")
+M("b4-counter-only-for-inner-wires", "C11", "fire B4", "src/convert.rs",
+  """            wires_map[output_wire] = next_wire;
+            next_wire += 1;""",
+  """            wires_map[output_wire] = next_wire;
+            if output_wire < first_output_wire {
+                next_wire += 1;
+            }""", "gates writing output wires share one wire number")
+M("b4-quiet-map-first", "C11", "quiet", "src/convert.rs",
+  """            if output_wire >= first_output_wire {
+                output_gates[output_wire - first_output_wire] = next_wire;
+            }
+
+            wires_map[output_wire] = next_wire;""",
+  """            wires_map[output_wire] = next_wire;
+            if output_wire >= first_output_wire {
+                output_gates[output_wire - first_output_wire] = next_wire;
+            }""", "behaviour-preserving: table written before the output bookkeeping")
